@@ -261,15 +261,14 @@ def pmap(fn, jobs):
         return pool.map(fn, jobs, chunksize=max(1, min(4, len(jobs) // (n * 2) or 1)))
 
 
-def resolve_rule(R, ctx, H, tier):
-    rid = "C15.resolve"
+def resolve_rule(R, ctx, H, tier, rid="C15.resolve", relative_only=False):
     R.rule(rid, "RequireMode::find_require, evaluated from its typed tree with std::path's Unix semantics and the file system as an "
                 "enumerated oracle, returns the first existing candidate of the documented order (path, .luau, .lua, folder file, "
                 "folder file .luau, .lua), relative to the requiring file for ./ and ../ (its parent when the requiring file is a "
                 "module-folder file, luau mode), to the configured source / alias / .luaurc alias / @self otherwise; unknown sources are errors. "
                 "Compared with an independent specification for every mode x requiring file x require string x layout "
                 "(none, each single candidate, each pair; thorough: every subset)")
-    jobs = [(kind, folder, source, req, tier) for kind, folder in MODES for source in SOURCES_FILES for req in REL_REQS + NAMED[kind]]
+    jobs = [(kind, folder, source, req, tier) for kind, folder in MODES for source in SOURCES_FILES for req in REL_REQS + ([] if relative_only else NAMED[kind])]
     n = n_cells = 0
     for key, bad, cells in pmap(_resolve_row, jobs):
         n += 1
@@ -277,8 +276,9 @@ def resolve_rule(R, ctx, H, tier):
         R.ob(rid, key, bad is None, ctx.where(H.find),
              "%d layouts agree with the documented order" % cells if bad is None else
              "files present %s: documented result %s, code gives %s" % (bad[0], bad[1], bad[2]))
-    R.require(rid, "floor:cells", n >= 150 and n_cells >= 1200, ctx.where(H.find), "%d (mode, file, require) rows, %d layouts evaluated" % (n, n_cells))
-    R.meta["C15.resolve"] = {"rows": n, "layouts": n_cells}
+    lo = (60, 500) if relative_only else (150, 1200)
+    R.require(rid, "floor:cells", n >= lo[0] and n_cells >= lo[1], ctx.where(H.find), "%d (mode, file, require) rows, %d layouts evaluated" % (n, n_cells))
+    R.meta[rid] = {"rows": n, "layouts": n_cells}
 
 
 def string_of(call):
@@ -381,6 +381,16 @@ def convert_rule(R, ctx, H, tier):
              "with %s present `%s` resolves to %s; written `%s` resolves to %s" % (sorted(files), req, first, new, again))
     R.require(rid, "floor:rows", n >= 100 and n_conv >= 300, ctx.where(H.conv_fn), "%d (modes, file, require) rows, %d conversions evaluated" % (n, n_conv))
     R.meta["C15.convert"] = {"rows": n, "conversions": n_conv}
+
+
+def relative_resolution(R, ctx, rid):
+    """The bundler inlines what find_require returns: the relative-require half of the resolution table, for another property."""
+    global _H
+    H = _H = Harness(ctx)
+    if not R.require(rid, "anchor:find_require", H.find is not None and thir.body_of(H.find) and {"Path", "Luau"} <= set(H.variants), "",
+                     "RequireMode::find_require / its Path and Luau variants not found"):
+        return
+    resolve_rule(R, ctx, H, "quick", rid=rid, relative_only=True)
 
 
 def run(R, ctx):
